@@ -89,6 +89,10 @@ func runC01(p *Program, r *Report) {
 	c14client(p, r, "C01.negotiation.client")
 	cFramePayload(p, r, "C01.payload")
 	c03loop(p, r, "C01.recv.loop")
+	// the receiver reconstructs the frame lengths the sender wrote: the header codec's reads are full reads of exactly the
+	// bytes of the form announced (a message over 65535 bytes is lost otherwise: seed C01-O)
+	c03hdr(p, r, "C01.hdr")
+	c03full(p, r, "C01.full")
 	// bytes the client sent right behind its handshake are part of the first message (seed C01-M)
 	shareAs(r, "C11.buf", "C01.handoff", func(sub *Report) { c11gate(p, sub, "C01.handoff") })
 	sub := newReport(r.Prop, r.Tier)
